@@ -521,7 +521,7 @@ func decidedSuccH(p, b *ssa.BasicBlock, rel []*ssa.BasicBlock, h mergeHist) int 
 	}
 	base, neg := condNorm(iff.Cond)
 	// a constant condition (what inlining a helper with a constant flag argument leaves behind)
-	if k, ok := constBool(base); ok {
+	if k, ok := constBoolDeep(base, b.Parent()); ok {
 		if neg {
 			k = !k
 		}
@@ -1058,4 +1058,89 @@ func retResult(ret *ssa.Return, i int) ssa.Value {
 		}
 	}
 	return v
+}
+
+// staticTarget is StaticCallee that looks through the synthetic wrapper of a bound method value
+// (`fn := b.m; fn()` or `helper(b.m)` after the helper was inlined): it returns the method itself.
+func staticTarget(cc *ssa.CallCommon) *ssa.Function {
+	sc := cc.StaticCallee()
+	if sc == nil || sc.Synthetic == "" || sc.Blocks == nil || !strings.Contains(sc.Synthetic, "bound method") {
+		return sc
+	}
+	var out *ssa.Function
+	n := 0
+	eachInstr(sc, func(in ssa.Instruction) {
+		if c2, ok := in.(ssa.CallInstruction); ok {
+			if t := c2.Common().StaticCallee(); t != nil {
+				out = t
+				n++
+			}
+		}
+	})
+	if n == 1 {
+		return out
+	}
+	return sc
+}
+
+// constBoolDeep: v is a boolean constant, or a load of a local cell that holds one constant for
+// its whole life — also when the cell was captured by the closure g the load sits in (the flag
+// argument of an inlined helper that returns a closure).
+func constBoolDeep(v ssa.Value, g *ssa.Function) (bool, bool) {
+	if k, ok := constBool(v); ok {
+		return k, true
+	}
+	u, ok := v.(*ssa.UnOp)
+	if !ok || u.Op != token.MUL {
+		return false, false
+	}
+	var cell *ssa.Alloc
+	switch x := u.X.(type) {
+	case *ssa.Alloc:
+		cell = x
+	case *ssa.FreeVar:
+		if g == nil {
+			return false, false
+		}
+		// the closure itself must not write the variable
+		if len(storesTo(x)) > 0 {
+			return false, false
+		}
+		for i, f := range g.FreeVars {
+			if f == x {
+				if mc := makeClosureOf(g); mc != nil && i < len(mc.Bindings) {
+					cell, _ = mc.Bindings[i].(*ssa.Alloc)
+				}
+			}
+		}
+	}
+	if cell == nil || cell.Referrers() == nil {
+		return false, false
+	}
+	// every referrer is a load, a capture, or the one store of a constant
+	var st *ssa.Store
+	for _, ref := range *cell.Referrers() {
+		switch y := ref.(type) {
+		case *ssa.Store:
+			if y.Addr != ssa.Value(cell) || st != nil {
+				return false, false
+			}
+			st = y
+		case *ssa.UnOp, *ssa.DebugRef:
+		case *ssa.MakeClosure:
+			// captured: the closure must not store to it either
+			fn, _ := y.Fn.(*ssa.Function)
+			for i, bnd := range y.Bindings {
+				if bnd == ssa.Value(cell) && fn != nil && i < len(fn.FreeVars) && len(storesTo(fn.FreeVars[i])) > 0 {
+					return false, false
+				}
+			}
+		default:
+			return false, false
+		}
+	}
+	if st == nil {
+		return false, false
+	}
+	return constBool(st.Val)
 }
